@@ -162,6 +162,12 @@ def rule_first(ctx: Ctx) -> RuleResult:
             res.violation([g.qualname, norm(c), "uri test"], f"sid_to_sid: `{norm(c)}` is not under the uri (':') test", g.relpath, c.lineno)
             continue
         lab = uri[-1][1]
+        # the sense of the test, not its spelling: is "':' in <string>" known to hold here?
+        fs_ = _fa(ctx, g, c)
+        if any(t_.startswith("':' in ") and tr_ for t_, tr_ in fs_):
+            lab = "true"
+        elif any(t_.startswith("':' in ") and not tr_ for t_, tr_ in fs_):
+            lab = "false"
         if lab == "true":
             good = len(c.args) == 2 and not c.keywords
             if good:
